@@ -122,9 +122,24 @@ def _np_el(fr, args, kwargs):
     return N.empty_like(args[0], _kind_arg(kwargs.get("dtype")))
 
 
-@model("numpy.array", "numpy.asarray")
+@model("numpy.asarray")
+def _np_asarray(fr, args, kwargs):
+    """np.asarray returns its argument ITSELF when it already is an array of the requested dtype (an alias, not a copy): an in-place
+    update of the result then changes the caller's array"""
+    x = args[0]
+    if set(kwargs) - {"dtype"}:
+        raise Unsupported(f"np.asarray with keyword(s) {sorted(set(kwargs) - {'dtype'})}")
+    dt = _kind_arg(kwargs.get("dtype", args[1] if len(args) > 1 else None))
+    if isinstance(x, Arr) and (dt is None or dt == x.kind):
+        return x
+    return _np_array(fr, args, kwargs)
+
+
+@model("numpy.array")
 def _np_array(fr, args, kwargs):
     x = args[0]
+    if set(kwargs) - {"dtype"}:
+        raise Unsupported(f"np.array with keyword(s) {sorted(set(kwargs) - {'dtype'})}")
     dt = _kind_arg(kwargs.get("dtype", args[1] if len(args) > 1 else None))
     if isinstance(x, Arr):
         a = Arr(x.axes, x.snapshot_fn(), x.kind, term=x.term)
@@ -435,6 +450,8 @@ def arr_method(fr, a, name, args, kwargs):
     if name == "item":
         return a.cell(tuple((0,) * len(ax) for ax in a.axes))
     if name == "fill":
+        if a.meta.get("view_of") is not None:
+            raise Unsupported("fill() of a view of another array: the write-through to the base is not modelled")
         v = sym.cast(args[0], a.kind)
         a.set_fn(lambda idx: v)
         return None
